@@ -259,9 +259,10 @@ def run_impl(c):
     run = MQRun(env, sched, c)
     counter = [0]
     def on_alarm(signum, frame):
-        raise TimeoutError('the scheduler loop did not yield for 5 s of wall time (it spins)')
-    old = signal.signal(signal.SIGALRM, on_alarm)
-    signal.setitimer(signal.ITIMER_REAL, 5.0)
+        raise TimeoutError('the scheduler loop did not yield for 20 s of CPU time (it spins)')
+    # CPU time of this process, not wall time: a busy machine must not look like a spinning scheduler
+    old = signal.signal(signal.SIGPROF, on_alarm)
+    signal.setitimer(signal.ITIMER_PROF, 20.0)
     try:
         for flow, size in c.get('pre', []):      # calls of put() before the kernel has run anything
             counter[0] += 1
@@ -280,8 +281,8 @@ def run_impl(c):
         run.raised = f'{type(x).__name__}: {x}'
         run.exhausted = False
     finally:
-        signal.setitimer(signal.ITIMER_REAL, 0)
-        signal.signal(signal.SIGALRM, old)
+        signal.setitimer(signal.ITIMER_PROF, 0)
+        signal.signal(signal.SIGPROF, old)
     return run
 
 
